@@ -35,13 +35,67 @@ def tv_str(s):
 NONE = {"t": "none"}
 
 
+def _flt(tv):
+    if tv.get("shift"):
+        from fractions import Fraction
+        return float(Fraction(tv["num"], tv["den"]) + tv["shift"])      # exactly representable by construction (see shifted())
+    return tv["num"] / tv["den"]
+
+
+def shifted(c, B):
+    """Real-side copy of a cmp / cond case with every numeric value and literal moved up by B (the model keeps the small values:
+    the six relations are translation invariant). None if a value cannot be moved exactly (fractions, bools, strings, floats that
+    are not representable at that magnitude)."""
+    import copy
+    from fractions import Fraction
+
+    def tv(v):
+        if v["t"] == "none":
+            return v
+        if v["t"] == "int":
+            return dict(v, shift=B)
+        if v["t"] == "flt":
+            x = Fraction(v["num"], v["den"]) + B
+            return dict(v, shift=B) if Fraction(float(x)) == x else None
+        return None
+
+    anyflt = any(e[k]["t"] == "flt" for e in c["env"] for k in ("v", "r")) or c["cur"]["t"] == "flt"
+
+    def lit(l):
+        if l["k"] != "num" or l["fd"]:
+            return None
+        x = (-l["ip"] if l["neg"] else l["ip"]) + B
+        if anyflt and int(float(x)) != x:
+            return None       # not expressible in a float operand's type at this magnitude: the relation is undefined there
+        return dict(l, txt=str(x))
+    rc = copy.deepcopy(c)
+    env = []
+    for e in rc["env"]:
+        v, r = tv(e["v"]), tv(e["r"])
+        if v is None or r is None:
+            return None
+        env.append({"name": e["name"], "v": v, "r": r})
+    rc["env"] = env
+    rc["cur"] = tv(rc["cur"])
+    if rc["cur"] is None:
+        return None
+    x = rc["expr"]
+    if x["k"] == "cmp" or (x["k"] == "cond" and x["rk"] == "lit"):
+        x["lit"] = lit(x["lit"])
+        if x["lit"] is None:
+            return None
+    elif x["k"] != "cond":
+        return None
+    return rc
+
+
 def py_plain(tv):
     if tv["t"] == "int":
-        return tv["n"]
+        return tv["n"] + tv.get("shift", 0)
     if tv["t"] == "bool":
         return bool(tv["n"])
     if tv["t"] == "flt":
-        return tv["num"] / tv["den"]
+        return _flt(tv)
     if tv["t"] == "str":
         return tv["s"]
     return None
@@ -52,11 +106,11 @@ def py_param(v, r):
     from space_packet_parser import common
     raw = py_plain(r)
     if v["t"] == "int":
-        return common.IntParameter(v["n"], raw)
+        return common.IntParameter(v["n"] + v.get("shift", 0), raw)
     if v["t"] == "bool":
         return common.BoolParameter(bool(v["n"]), raw)
     if v["t"] == "flt":
-        return common.FloatParameter(v["num"] / v["den"], raw)
+        return common.FloatParameter(_flt(v), raw)
     if v["t"] == "str":
         return common.StrParameter(v["s"], raw)
     raise ValueError(v)
